@@ -175,6 +175,19 @@ CHECKS = {
              "case analysis and the symbolic thresholds, the harness the big-number arithmetic.",
         note=TLC_BASE + "; the size limit is read back from the trigger's Debug rendering",
         design="7/C20"),
+    "C11": dict(
+        category="model_checking",
+        technique="TLA+ spec (Pattern.tla: parser, Piece->Chunk table and Render transcribed as operators) evaluated by "
+                  "TLC on every string of the bound; every string replayed on PatternEncoder under catch_unwind",
+        text="TLC evaluates Render(s) for every string s of length <= 4/5 over the 12 syntax characters plus a non-ASCII "
+             "letter and for a curated family (all single-character deletions / duplications / neighbour swaps of 20 "
+             "well-formed patterns, 20-digit widths, invalid strftime specifiers, invalid zones, wrong arities): Total "
+             "(no evaluation error in the transcription) and ErrorVisible (every error piece yields a marker). Each "
+             "string is then given to the real PatternEncoder::new and encode under catch_unwind: no panic; the output "
+             "must start with the prefix the specification renders and an {ERROR: marker must follow where the "
+             "specification has one (or encode returns Err).",
+        note=TLC_BASE + "; one record; widths beyond 10^6 are constructed but not encoded; marker wording not compared",
+        design="7/C11"),
 }
 
 NOT_YET = "check not built yet in this round (planned, see DESIGN.md section 7)"
